@@ -279,6 +279,11 @@ def do_op(ctx, call, op, app, env):
     elif kind == 'new_app_from_config':
         # a further application built from this application's configuration object and then configured differently
         sib = ombott.Ombott(app.config)
+        # the sibling's own configuration objects, changed in place
+        sib.request.config.max_body_size = 4
+        sib.request.config.allow_x_script_name = True
+        sib.config.app_name_header = 'HTTP_X_APP'
+        sib.config.max_memfile_size = 3
         sib.setup({'max_body_size': 1, 'max_memfile_size': 1, 'app_name_header': 'HTTP_X_APP', 'allow_x_script_name': True})
         sib.config.max_body_size = 0
     elif kind == 'new_app_custom_errors':
